@@ -14,6 +14,7 @@
 #include <chrono>
 #include <cstdio>
 #include <cstring>
+#include <filesystem>
 #include <fstream>
 #include <iostream>
 #include <map>
@@ -23,6 +24,7 @@
 #include <string>
 #include <vector>
 
+#include "bloch/compiler/import/module_loader.hpp"
 #include "bloch/compiler/lexer/lexer.hpp"
 #include "bloch/compiler/parser/parser.hpp"
 #include "bloch/compiler/semantics/semantic_analyser.hpp"
@@ -49,9 +51,11 @@ static const std::vector<std::vector<std::string>> ALPHABETS = {
     // 3: compact mixed alphabet for longer strings
     {"x", "1", "(", ")", "{", "}", "[", "]", ";", "=", "int", "@", "tracked", "<", ">", "."},
     // 4: edit alphabet (replacement / insertion tokens for seed mutation)
-    {"x", "1", "1.5f", "1b", "\"s\"", "'c'", "null", "(", ")", "{", "}", "[", "]", ";", ",", ".", "=", "==", "+", "-", "*", "!", "<", ">", "->", "@", "++", "?", ":",
+    {"x", "1", "99999999999", "1.5f", "1b", "\"s\"", "'c'", "null", "(", ")", "{", "}", "[", "]", ";", ",", ".", "=", "==", "+", "-", "*", "!", "<", ">", "->", "@", "++", "?", ":",
      "int", "void", "qubit", "function", "class", "return", "if", "else", "for", "while", "measure", "reset", "new", "this", "super", "final", "static", "public",
      "private", "tracked", "quantum", "shots", "extends", "import", "package", "destroy", "constructor", "destructor", "default", "virtual", "override", "abstract"},
+    // 5: imports / package / annotations in front of a valid main (loader mode)
+    {"import", "package", "lib", ".", "Helper", "*", ";", "@", "shots", "(", ")", "1", "99999999999", "quantum"},
 };
 static const std::vector<std::pair<std::string, std::string>> CONTEXTS = {
     {"", ""},
@@ -59,7 +63,9 @@ static const std::vector<std::pair<std::string, std::string>> CONTEXTS = {
     {"class C { ", " } function main() -> void { }"},
     {"function main() -> void { int x = 0; int y = ", " ; }"},
     {"class C { public int x; public function m() -> void { ", " } } function main() -> void { }"},
+    {"", " function main() -> void { }"},
 };
+static std::string g_loaderDir;  // non-empty: inputs go through the real ModuleLoader (file on tmpfs + sibling modules)
 
 static int g_progressFd = -1;
 static void progress(long n, const std::string& input) {
@@ -97,10 +103,19 @@ static std::string pipeline(const std::string& src, SemanticAnalyser* an, std::s
     memcpy(heap.get(), src.data(), src.size());
     std::unique_ptr<Program> prog;
     try {
-        Lexer lx(std::string_view(heap.get(), src.size()));
-        auto toks = lx.tokenize();
-        Parser ps(std::move(toks));
-        prog = ps.parse();
+        if (!g_loaderDir.empty()) {
+            {
+                std::ofstream o(g_loaderDir + "/main.bloch", std::ios::binary | std::ios::trunc);
+                o.write(src.data(), (std::streamsize)src.size());
+            }
+            ModuleLoader loader({g_loaderDir + "/search"});
+            prog = loader.load(g_loaderDir + "/main.bloch");
+        } else {
+            Lexer lx(std::string_view(heap.get(), src.size()));
+            auto toks = lx.tokenize();
+            Parser ps(std::move(toks));
+            prog = ps.parse();
+        }
         if (an) an->analyse(*prog);
     } catch (const BlochError& e) {
         if (msg) *msg = e.what();
@@ -159,6 +174,16 @@ static void checkInput(const std::string& src, long n, bool verbose = false) {
         violation("outcome:" + r.substr(0, 40), "front end ended with " + r + " instead of acceptance or one Lexical/Parse/Semantic diagnostic", src, n);
     if (g_outcomes.size() < 100000) g_outcomes.insert(r + "|" + msgClass(msg));
     if (g_samples.size() < 4 && (g_total % 50021) == 7) g_samples.push_back(src);
+    // differential: a fresh analyser must give the same verdict (and message) on this very input
+    if (g_analyse && (r == "ok" || r == "semantic")) {
+        SemanticAnalyser fresh;
+        std::string msg2;
+        alarm(5);
+        std::string r2 = pipeline(src, &fresh, &msg2);
+        alarm(0);
+        if (r2 != r || msg2 != msg)
+            violation("reuse:differs", "reused analyser says " + r + " (" + msg + ") but a fresh analyser says " + r2 + " (" + msg2 + ")", src, n);
+    }
     // the reused analyser must still behave like a fresh one
     if (g_analyse && (r == "semantic" || (g_total & 63) == 0)) {
         ++g_probes;
@@ -355,6 +380,19 @@ int main(int argc, char** argv) {
     SemanticAnalyser reused;
     g_reused = &reused;
     std::string cmd = argc > 1 ? argv[1] : "";
+    if (cmd.rfind("L", 0) == 0) {  // Ltokens / Ledits / Lfile: loader mode
+        cmd = cmd.substr(1);
+        namespace fs = std::filesystem;
+        g_loaderDir = "/dev/shm/verif_front_" + std::to_string(getpid());
+        fs::create_directories(g_loaderDir + "/lib/util");
+        fs::create_directories(g_loaderDir + "/search/lib");
+        std::ofstream(g_loaderDir + "/lib/Helper.bloch") << "package lib;\nfunction helper() -> int { return 1; }\n";
+        std::ofstream(g_loaderDir + "/lib/util/Helper.bloch") << "package lib.util;\nimport lib.Helper;\nfunction helper2() -> int { return helper(); }\n";
+        std::ofstream(g_loaderDir + "/lib/util/Other.bloch") << "package lib.util;\nclass Other { public int v; public constructor() -> Other = default; }\n";
+        std::ofstream(g_loaderDir + "/search/lib/Extra.bloch") << "package lib;\nfunction extra() -> int { return 2; }\n";
+        if (chdir(g_loaderDir.c_str()) != 0) return 3;
+        atexit([] { std::error_code ec; std::filesystem::remove_all(g_loaderDir, ec); });
+    }
     auto common = [&](int base) {
         g_part = atoi(argv[base]);
         g_nparts = atoi(argv[base + 1]);
